@@ -18,8 +18,14 @@
     * `dataDelivery` / `resetDelivery`: the stream is not blocked — delivery
       reports exist only for frames that were emitted (recovery, C08), and no
       frame is emitted for a blocked stream (`stream_count`).
+  `GWFRun` (used by `ghost_invariant`, `emitted_within_stream_limit`,
+  `retransmit_free`) adds: every delivery report names a frame that was emitted
+  for that stream and not yet reported — the hypothesis under which C10 proves
+  the sender invariant `AQ.Stream.SInv` (AQ.Proofs.StreamSend), to which the
+  send half of every stream is connected here; checks/c06.py validates it on
+  every real trace.
 -/
-import AQ.Proofs.FlowEmit
+import AQ.Proofs.FlowGhost4
 
 namespace AQ.Props.C06
 open AQ AQ.Stream AQ.Flow
@@ -70,38 +76,56 @@ theorem stream_count (c0 : Conn) (hf : Fresh c0) (ops : List Op) (hwf : WFRun c0
   have := (h.strm st hm).count (by rw [hsid]; exact hl) hnb
   rwa [hsid] at this
 
+/-- a fresh connection, also for the receive-side and ghost invariants -/
+def FreshAll (c : Conn) : Prop :=
+  Fresh c ∧ c.quirks.resetKeepsHighest = false ∧ c.localMaxData.used = 0 ∧ c.goneRecv = 0
+
+/-- no frame emitted yet on any stream -/
+def G0 : GMap := fun _ => {}
+
+/-- `GWFRun`: besides `WFRun`, every delivery report names a frame that was
+    emitted for that stream and not yet reported (the recovery layer reports each
+    sent frame once, C08) — the hypothesis under which C10 proves the sender
+    invariant.  Under it every stream's send half satisfies the C10 invariant
+    `AQ.Stream.SInv` with its ghost history, and every emitted frame ends at or
+    below `highest_offset`. -/
+theorem ghost_invariant (c0 : Conn) (hf : FreshAll c0) (ops : List Op) (hwf : GWFRun c0 G0 ops) :
+    Inv (runState c0 ops) ∧ RInv (runState c0 ops) ∧ GI (runState c0 ops) (grun c0 G0 ops).2 := by
+  have hi := inv_init c0 hf.1.1 hf.1.2.1 hf.1.2.2.1 hf.1.2.2.2.1 hf.1.2.2.2.2.1 hf.1.2.2.2.2.2
+  have hr := rinv_init c0 hf.2.1 hf.1.2.1 hf.2.2.1 hf.2.2.2
+  have hg : GI c0 G0 := by intro st hs; rw [hf.1.2.1] at hs; simp at hs
+  have := grun_inv hi hr hg ops hwf
+  rwa [grun_fst] at this
+
 /-- on the wire: a STREAM frame written by any operation ends at or below the
-    per-stream limit held for its stream when it is written (a frame without
-    data is a FIN-only frame), and a RESET_STREAM frame carries a final size
-    within that limit. -/
-theorem emitted_within_stream_limit (c0 : Conn) (hf : Fresh c0) (ops : List Op) (hwf : WFRun c0 ops) (op : Op) :
+    per-stream limit held for its stream when it is written — FIN-only frames
+    included (their offset is the final size, which is at or below
+    `highest_offset` by the C10 sender invariant) — and a RESET_STREAM frame
+    carries a final size within that limit. -/
+theorem emitted_within_stream_limit (c0 : Conn) (hf : FreshAll c0) (ops : List Op) (hwf : GWFRun c0 G0 ops)
+    (op : Op) :
     (∀ sid off len fin, WFrame.stream sid off len fin ∈ (step (runState c0 ops) op).2.frames →
-      ∃ st, (runState c0 ops).find? sid = some st ∧ (off + len ≤ st.maxRemote ∨ len = 0)) ∧
+      ∃ st, (runState c0 ops).find? sid = some st ∧ off + len ≤ st.maxRemote) ∧
     (∀ sid z, WFrame.resetStream sid z ∈ (step (runState c0 ops) op).2.frames →
       ∃ st, (runState c0 ops).find? sid = some st ∧ z ≤ st.maxRemote) := by
-  have h := invariant c0 hf ops hwf
+  obtain ⟨h, _, hg⟩ := ghost_invariant c0 hf ops hwf
   constructor
   · intro sid off len fin hfr
     obtain ⟨a, b, fs, rfl⟩ := step_stream_frames hfr rfl
-    obtain ⟨st, st1, st', f, used, hfind, _, e1, e2, _, hw, _, rfl, rfl, _, _, _⟩ := serve_stream_frame hfr
+    obtain ⟨st, st1, st', f, used, hfind, e1, e2, hw, rfl, rfl, _, hpost⟩ := serve_stream_ghost hg hfr
     refine ⟨st, hfind, ?_⟩
     have hlim := (h.strm st (Conn.find?_mem hfind).1).limit
     obtain ⟨_, _, _, _, _, w6, _⟩ := writeStreamFrame_spec hw
     have hmo : (maxOffsetFor (runState c0 ops) st1).toNat ≤ st1.maxRemote := by unfold maxOffsetFor; omega
-    rcases (writeStreamFrame_frame hw).1 with hle | hnil
-    · left; rw [e1] at w6; rw [e2] at hmo; omega
-    · right; simp [hnil]
+    rw [e1] at w6; rw [e2] at hmo; omega
   · intro sid z hfr
     obtain ⟨a, b, fs, rfl⟩ := step_stream_frames hfr rfl
     obtain ⟨st, hfind, _, rfl⟩ := serve_reset_frame hfr
     exact ⟨st, hfind, (h.strm st (Conn.find?_mem hfind).1).limit⟩
 
-/-- "Retransmissions consume no additional credit": the credit a write-loop step
-    takes is what `_write_stream_frame` returned, i.e. the growth of
-    `highest_offset`; a STREAM frame that lies entirely at or below the highest
-    offset already sent (a retransmission) takes none.  (`Covers`: the sender's
-    buffer holds its pending ranges — the C10 invariant of `QuicStreamSender`.) -/
-theorem retransmit_free (c : Conn) (sid sid' off len : Nat) (fin a b : Bool) (fs : Int) (st : Strm)
+/-- one-step core of `retransmit_free`, for any state whose sender buffer holds
+    its pending ranges (`Covers`) -/
+theorem retransmit_free_of_covers (c : Conn) (sid sid' off len : Nat) (fin a b : Bool) (fs : Int) (st : Strm)
     (hfr : WFrame.stream sid' off len fin ∈ (serve c sid a b fs).2.frames)
     (hst : c.find? sid = some st) (hcov : Covers st.send) (hbelow : off + len ≤ st.send.highest) :
     (serve c sid a b fs).1.remoteMaxDataUsed = c.remoteMaxDataUsed ∧ (serve c sid a b fs).2.used = 0 := by
@@ -111,6 +135,22 @@ theorem retransmit_free (c : Conn) (sid sid' off len : Nat) (fin a b : Bool) (fs
   have hcase := (writeStreamFrame_frame hw).2 (by rw [e1]; exact hcov)
   have hz : used = 0 := by rw [e1] at w4 w5 hcase; omega
   rw [hc', hu, hz]; exact ⟨rfl, rfl⟩
+
+/-- "Retransmissions consume no additional credit": after any well-formed
+    operation sequence, a write-loop step that emits a STREAM frame lying entirely
+    at or below the highest offset already sent on that stream (a retransmission)
+    takes no connection credit.  (`Covers` is no longer a hypothesis: it follows
+    from the C10 sender invariant carried by `ghost_invariant`.) -/
+theorem retransmit_free (c0 : Conn) (hf : FreshAll c0) (ops : List Op) (hwf : GWFRun c0 G0 ops)
+    (sid sid' off len : Nat) (fin a b : Bool) (fs : Int) (st : Strm)
+    (hfr : WFrame.stream sid' off len fin ∈ (serve (runState c0 ops) sid a b fs).2.frames)
+    (hst : (runState c0 ops).find? sid = some st) (hbelow : off + len ≤ st.send.highest) :
+    (serve (runState c0 ops) sid a b fs).1.remoteMaxDataUsed = (runState c0 ops).remoteMaxDataUsed ∧
+    (serve (runState c0 ops) sid a b fs).2.used = 0 := by
+  obtain ⟨_, _, hg⟩ := ghost_invariant c0 hf ops hwf
+  obtain ⟨st0, _, _, _, _, hfind, _, _, _, _, _, hcov, _⟩ := serve_stream_ghost hg hfr
+  rw [hst] at hfind; cases hfind
+  exact retransmit_free_of_covers _ sid sid' off len fin a b fs st hfr hst hcov hbelow
 
 /-- "data blocked by a limit is sent once the limit is raised", stream-count
     part: a MAX_STREAMS frame raising the limit to `v` releases every blocked
@@ -156,6 +196,15 @@ example : Fresh ({} : Conn) ∧ WFRun {} demoOps ∧ (runState {} demoOps).remot
   refine ⟨⟨rfl, rfl, rfl, rfl, rfl, rfl⟩, ?_, by decide⟩
   simp [WFRun, demoOps, Op.wf, TP.monotone, tpA]
 
+/-- non-vacuity of `GWFRun`: the same run followed by the acknowledgement of the
+    frame that was emitted is well-formed -/
+example : FreshAll ({} : Conn) ∧ GWFRun {} G0 (demoOps ++ [.dataDelivery 0 .acked 0 5 false]) := by
+  refine ⟨⟨⟨rfl, rfl, rfl, rfl, rfl, rfl⟩, rfl, rfl, rfl⟩, ?_⟩
+  refine ⟨?_, trivial, trivial, trivial, trivial, trivial, ?_, ?_, trivial⟩
+  · simp [Op.wf, TP.monotone, tpA]
+  · simp only [Op.wf, notBlocked]; decide
+  · simp only [wfG]; decide
+
 /-- Transport parameters that REDUCE the connection limit held before (which
     `_parse_transport_parameters` accepts without a check) break the connection
     limit: 5 bytes were sent under the remembered limit 10, the new limit is 2. -/
@@ -172,6 +221,65 @@ theorem unblock_headOnly_counterexample :
       .sendStreamData 4 [1] false, .rxMaxStreams false 2]
     c.blockedBidi = [8, 4] := by decide
 
+/-! ## two behaviours of the code that C06 tolerates (documented, with what is guaranteed) -/
+
+/-- 0-RTT: transport parameters (remembered or real) never touch the streams that
+    already exist — a stream created under the remembered limits keeps the
+    `max_stream_data_remote` it was created with.  Safety is unaffected
+    (`stream_limit` is about that field, and a server must not reduce the limit,
+    RFC 9000 §7.4.1); what is lost is only the benefit of a larger real limit,
+    until a MAX_STREAM_DATA frame arrives (`zero_rtt_limit_not_raised_example`). -/
+theorem transportParams_keeps_streams (c : Conn) (tp : TP) : (transportParams c tp).streams = c.streams := rfl
+
+/-- remembered per-stream limit 5, stream 0 created and 5 of 8 bytes sent in
+    0-RTT; the real transport parameters grant 10, yet the stream still holds 5
+    and the next write-loop step sends nothing more; MAX_STREAM_DATA releases it. -/
+theorem zero_rtt_limit_not_raised_example :
+    let ops : List Op :=
+      [.transportParams { maxData := some 100, maxStreamDataBidiRemote := some 5, maxStreamsBidi := some 1 },
+       .sendStreamData 0 [1, 2, 3, 4, 5, 6, 7, 8] false, .serve 0 true true 100,
+       .transportParams { maxData := some 100, maxStreamDataBidiRemote := some 10, maxStreamsBidi := some 1 }]
+    let c := runState {} ops
+    (c.streams.map (fun s => (s.maxRemote, s.send.highest)) = [(5, 5)]) ∧
+    (serve c 0 true true 100).2.frames = [] ∧
+    (serve (rxMaxStreamData c 0 10).1 0 true true 100).2.frames = [WFrame.stream 0 5 3 false] := by decide
+
+/-- a stream released by MAX_STREAMS gets the initial per-stream limit of its type
+    (`_unblock_streams` assigns `max_stream_data_remote`): a MAX_STREAM_DATA frame
+    received while the stream was still blocked is overwritten.  Safe (nothing was
+    sent on a blocked stream, and the initial limit is one the peer granted); a
+    peer does not send MAX_STREAM_DATA for a stream beyond its own stream limit. -/
+theorem released_stream_gets_initial_limit (c : Conn) (uni : Bool) :
+    ∀ s' ∈ (unblockStreams c uni).streams,
+      (∃ s ∈ c.streams, s' = s) ∨
+      (s'.isBlocked = false ∧
+        s'.maxRemote = (if uni then c.remoteMaxStreamDataUni else c.remoteMaxStreamDataBidiRemote)) := by
+  intro s' hs'
+  unfold unblockStreams at hs'
+  cases uni with
+  | true =>
+    simp only [if_true] at hs' ⊢
+    obtain ⟨s, hs, rfl⟩ := mem_releaseIn hs'
+    split
+    · exact .inr ⟨rfl, rfl⟩
+    · exact .inl ⟨s, hs, rfl⟩
+  | false =>
+    simp only [Bool.false_eq_true, if_false] at hs' ⊢
+    obtain ⟨s, hs, rfl⟩ := mem_releaseIn hs'
+    split
+    · exact .inr ⟨rfl, rfl⟩
+    · exact .inl ⟨s, hs, rfl⟩
+
+/-- stream 0 blocked (stream limit 0), MAX_STREAM_DATA 100 received for it, then
+    MAX_STREAMS 1: the stream is released with the initial limit 5, not 100. -/
+theorem blocked_max_stream_data_overwritten_example :
+    let ops : List Op :=
+      [.transportParams { maxData := some 100, maxStreamDataBidiRemote := some 5, maxStreamsBidi := some 0 },
+       .sendStreamData 0 [1, 2, 3] false, .rxMaxStreamData 0 100]
+    ((runState {} ops).streams.map (fun s => (s.isBlocked, s.maxRemote)) = [(true, 100)]) ∧
+    ((runState {} (ops ++ [.rxMaxStreams false 1])).streams.map (fun s => (s.isBlocked, s.maxRemote)) = [(false, 5)]) := by
+  decide
+
 /-- before `fixes/C06-no-reopen-finished-stream.diff` (quirk `reopenFinished`):
     writing on an id whose stream was finished and discarded silently creates a
     fresh stream object (data from offset 0 again on a closed stream — the peer
@@ -185,12 +293,18 @@ theorem reopen_finished_counterexample :
 end AQ.Props.C06
 
 #print axioms AQ.Props.C06.reopen_finished_counterexample
+#print axioms AQ.Props.C06.transportParams_keeps_streams
+#print axioms AQ.Props.C06.zero_rtt_limit_not_raised_example
+#print axioms AQ.Props.C06.released_stream_gets_initial_limit
+#print axioms AQ.Props.C06.blocked_max_stream_data_overwritten_example
 #print axioms AQ.Props.C06.invariant
 #print axioms AQ.Props.C06.credit_ledger
 #print axioms AQ.Props.C06.stream_limit
 #print axioms AQ.Props.C06.conn_limit
 #print axioms AQ.Props.C06.stream_count
 #print axioms AQ.Props.C06.emitted_within_stream_limit
+#print axioms AQ.Props.C06.ghost_invariant
+#print axioms AQ.Props.C06.retransmit_free_of_covers
 #print axioms AQ.Props.C06.retransmit_free
 #print axioms AQ.Props.C06.unblock_progress_streams
 #print axioms AQ.Props.C06.unblock_progress_data
